@@ -152,7 +152,7 @@ impl FsBackend for SimDisk {
         s.total_calls += 1;
         s.op_creates += 1;
         s.log.str("create");
-        s.log.str(path);
+        s.log.str(path.rsplit('/').next().unwrap_or(path)); // base name only: the directory embeds the pid
         if let Some(a) = s.take(|a| matches!(a.kind, FaultKind::CreateFail(_))) {
             let idx = s.op_creates - 1;
             s.op_fired.push((idx, a.kind));
@@ -174,7 +174,7 @@ impl FsBackend for SimDisk {
         s.total_calls += 1;
         s.op_opens += 1;
         s.log.str("open");
-        s.log.str(path);
+        s.log.str(path.rsplit('/').next().unwrap_or(path));
         if let Some(a) = s.take(|a| matches!(a.kind, FaultKind::OpenFail(_))) {
             let idx = s.op_opens - 1;
             s.op_fired.push((idx, a.kind));
